@@ -9,6 +9,7 @@
 -/
 import Proofs.Atomic
 import Proofs.SeqInv
+import Proofs.ReplayLog
 namespace Pulser
 namespace C09
 
@@ -160,6 +161,42 @@ theorem failed_call_atomic_partial (s : SeqState) (op : Op) (e : Err)
   | estimate _ _ _ => simp [early] at he
   | phaseRef _ _ => simp [early] at he
 
+/-- Every call of the history succeeds (queries included). -/
+def AllOk : SeqState → List Op → Prop
+  | _, [] => True
+  | s, op :: rest => (stepRaw s op).err = none ∧ NodupOpts op ∧ AllOk (stepRaw s op).st rest
+
+/-- **The state of a sequence is reproducible from its record of successful calls.**
+For every history of successful calls from a fresh sequence, replaying the recorded calls
+(`_calls`: each building call as stored — `enable_eom_mode` / `modify_eom_setpoint` with the
+off-detuning that was chosen; queries are not recorded) on a fresh sequence of the same device
+and register yields exactly the same state.  This is what `build()` of a non-parametrized
+sequence and `switch_register` to an identical register do.
+(Histories containing a call that raises *non-atomically* — the known findings F2.x — are
+outside this theorem: there the state is no function of the record; see the counterexamples.) -/
+theorem replay_log (dev : Device) (nQ : Nat) (ops : List Op) (h : AllOk (SeqState.init dev nQ) ops) :
+    run (SeqState.init dev nQ) (run (SeqState.init dev nQ) ops).calls = run (SeqState.init dev nQ) ops := by
+  -- invariant: a state equals the replay of its own record on the fresh sequence
+  have key : ∀ (ops : List Op) (s : SeqState), s.dev = dev → s.nQ = nQ →
+      run (SeqState.init dev nQ) s.calls = s → AllOk s ops →
+      run (SeqState.init dev nQ) (run s ops).calls = run s ops := by
+    intro ops
+    induction ops with
+    | nil => intro s _ _ hs _; exact hs
+    | cons op rest ih =>
+      intro s hd hq hs hok
+      obtain ⟨h1, h2, h3⟩ := hok
+      have hrun : run s (op :: rest) = run (stepRaw s op).st rest := rfl
+      rw [hrun]
+      rcases step_record s op h1 h2 with ⟨_, hst⟩ | ⟨op', hc, hdev, hnq, hrep⟩
+      · rw [hst] at h3 ⊢
+        exact ih s hd hq hs h3
+      · apply ih (stepRaw s op).st (hdev.trans hd) (hnq.trans hq) _ h3
+        rw [hc, run_append, hs]
+        show (stepRaw s op').st = (stepRaw s op).st
+        rw [hrep]
+  exact key ops (SeqState.init dev nQ) rfl rfl rfl h
+
 /-! ### The excluded pairs are genuinely not atomic (known findings F2.x) -/
 
 def exCfg : ChanCfg := { clock := 4, minDur := 16, rise := 120, pjt := 240 }
@@ -183,7 +220,13 @@ theorem declare_bad_target_not_atomic :
     ((stepRaw (SeqState.init dev 2) (.declare (.user 0) 0 (some []))).st.chans.length = 1) := by
   decide +kernel
 
-/-! ### Non-vacuity of `failed_call_atomic_partial` -/
+/-! ### Non-vacuity -/
+example : AllOk (SeqState.init exDev 1)
+    [.declare (.user 0) 0 none, .add { dur := 100, fallStd := 240, ref := 1 } (.user 0) (some .minDelay),
+     .getDuration none true, .delay 100 (.user 0) true] := by
+  refine ⟨by decide +kernel, trivial, by decide +kernel, trivial, by decide +kernel, trivial,
+    by decide +kernel, trivial, trivial⟩
+
 example : (stepRaw sPulse (.add { dur := 3, ref := 2 } (.user 0) (some .minDelay))).err
     = some .durTooShort := by decide +kernel
 example : early (.add { dur := 3, ref := 2 } (.user 0) (some .minDelay)) .durTooShort = true := by
